@@ -303,7 +303,14 @@ func Run(r *core.Run) {
 			}
 			// recover
 			window(2000)
-			ri := &client.RecoverRequestInfo{DidSuffix: suffix, RecoveryKey: jwkOf(rec), OpaqueDocument: opaque, RecoveryCommitment: cm(rec2), UpdateCommitment: cm(upd3), AnchorOrigin: bc.origin,
+			// the recover names the create's anchor origin again, another one, or (when the create had one) none at all
+			recoverOrigin := bc.origin
+			if bc.origin != nil && bc.code == 19 {
+				recoverOrigin = nil
+			} else if bc.origin != nil && strings.HasPrefix(bc.action, "add-") {
+				recoverOrigin = "another-origin.example"
+			}
+			ri := &client.RecoverRequestInfo{DidSuffix: suffix, RecoveryKey: jwkOf(rec), OpaqueDocument: opaque, RecoveryCommitment: cm(rec2), UpdateCommitment: cm(upd3), AnchorOrigin: recoverOrigin,
 				AnchorFrom: from, AnchorUntil: until, MultihashCode: bc.code, Signer: newSigner(rec), RevealValue: rv(rec)}
 			var rintent map[string]any
 			_ = json.Unmarshal([]byte(opaque), &rintent)
@@ -323,7 +330,7 @@ func Run(r *core.Run) {
 			if msg != "" {
 				return fail("recover", msg, rreq)
 			}
-			if docView(implDoc(st3)) != docView(rintent) || st3.UpdateCommitment != cm(upd3) || st3.RecoveryCommitment != cm(rec2) || !jcs.Equal(gen(st3.AnchorOrigin), gen(bc.origin)) {
+			if docView(implDoc(st3)) != docView(rintent) || st3.UpdateCommitment != cm(upd3) || st3.RecoveryCommitment != cm(rec2) || !jcs.Equal(gen(st3.AnchorOrigin), gen(recoverOrigin)) {
 				return fail("recover", fmt.Sprintf("state %s differs from the intent %s", docView(implDoc(st3)), docView(rintent)), rreq)
 			}
 			// deactivate
